@@ -6,7 +6,7 @@ Two forms per unit:
   raw : clang -O0 -disable-O0-optnone (every local is an alloca)      -> definite assignment (R9)
   ssa : opt -passes=mem2reg on the above (scalars promoted, phi nodes) -> everything else
 """
-import os, re, subprocess, sys, json, shutil, tempfile
+import json, os, re, subprocess, sys, shutil, tempfile
 from concurrent.futures import ThreadPoolExecutor
 
 
@@ -57,6 +57,7 @@ class Build:
         self.keep = keep
         self.flags = list(self.defs) + ['-DKJN_LBZIP2_VERIF', '-std=' + self.std]
         self.flags.append('-DNDEBUG' if ndebug else '-UNDEBUG')
+        self.inlined = {}
 
     def close(self):
         if not self.keep:
@@ -72,10 +73,54 @@ class Build:
         r = subprocess.run(cmd, capture_output=True, text=True)
         if r.returncode != 0:
             broken('compile failed for %s:\n%s' % (unit, r.stderr[-2000:]))
-        r = subprocess.run(['opt-14', '-S', '-passes=mem2reg', raw, '-o', ssa], capture_output=True, text=True)
+        passes = 'mem2reg'
+        new = self._mark_new_functions(base, raw)
+        if new:
+            # functions that did not exist when the rules were confirmed (a helper extracted from a task body, ...)
+            # are analysed in the context of their callers: always-inline them first (semantics-preserving)
+            passes = 'always-inline,mem2reg'
+            self.inlined.setdefault(base, []).extend(new)
+        r = subprocess.run(['opt-14', '-S', '-passes=' + passes, raw, '-o', ssa], capture_output=True, text=True)
         if r.returncode != 0:
-            broken('opt mem2reg failed for %s:\n%s' % (unit, r.stderr[-2000:]))
+            broken('opt %s failed for %s:\n%s' % (passes, unit, r.stderr[-2000:]))
         return base, raw, ssa
+
+    _baseline = None
+
+    def _mark_new_functions(self, base, raw):
+        if os.environ.get('VERIF_NO_INLINE'):
+            return []
+        if Build._baseline is None:
+            p = os.path.join(os.path.dirname(os.path.abspath(__file__)), 'baseline_functions.json')
+            Build._baseline = json.load(open(p)) if os.path.exists(p) else {}
+        known = set(Build._baseline.get(base, []))
+        if not known:
+            return []
+        txt = open(raw).read()
+        new = []
+        groups = {}
+
+        def repl(m):
+            name = m.group(2)
+            if name in known:
+                return m.group(0)
+            new.append(name)
+            gid = m.group(3)
+            groups[gid] = True
+            return m.group(1) + '#9%s' % gid + m.group(4)
+        txt2 = re.sub(r'^(define [^@\n]*@([A-Za-z0-9_.]+)\([^\n]*?)#(\d+)( [^\n]*\{)$', repl, txt, flags=re.M)
+        if not new:
+            return []
+        add = []
+        for gid in groups:
+            m = re.search(r'^attributes #%s = \{(.*)\}$' % gid, txt, re.M)
+            if not m:
+                broken('attribute group #%s not found in %s' % (gid, raw))
+            body = re.sub(r'\b(noinline|optnone)\b', '', m.group(1))
+            add.append('attributes #9%s = { alwaysinline %s }' % (gid, body.strip()))
+        txt2 = txt2 + '\n' + '\n'.join(add) + '\n'
+        open(raw, 'w').write(txt2)
+        return new
 
     def compile_all(self):
         with ThreadPoolExecutor(max_workers=16) as ex:
